@@ -512,7 +512,7 @@ def gen(rng, tier):
         for _ in range(6 if not big else 40):
             cases.append(_mk(rng, host=host))
     # the main stream: valid requests with every kind of body script
-    for _ in range(350 if not big else 20000):
+    for _ in range(350 if not big else 6000):
         cases.append(_mk(rng))
     # chunk-size boundaries
     for n in [0, 1, 9, 10, 15, 16, 17, 255, 256] + ([4095, 4096, 65535, 65536, 70000] if big else []):
